@@ -37,9 +37,10 @@ def main():
     ap.add_argument("--skip-confirm", action="store_true")
     ap.add_argument("--keep", default="", help="store under /verif/seeded/<name>/ when confirmed (patch.diff, demo.py, notes.md, meta.json)")
     ap.add_argument("--property", default="")
+    ap.add_argument("--patch", default="patch.diff", help="patch file name inside the directory (e.g. patch_ported.diff)")
     a = ap.parse_args()
     d = os.path.abspath(a.dir)
-    patch = os.path.join(d, "patch.diff")
+    patch = os.path.join(d, a.patch)
     demo = os.path.join(d, "demo.py")
     wt = tempfile.mkdtemp(prefix="seedwt_")
     os.rmdir(wt)
